@@ -16,6 +16,8 @@ package index
 //@   requires [inv] INV_index(s)
 //@   at (index.index).put assert [under-the-lock-of-the-same-shard] exists i :: 0 <= i && i < len(s.index) && arg0 == s.index[i] && result_of("(*index.ShardedIndex).locateShard", 1) == elemaddr(s.indexLock, i) && result_of("(*index.ShardedIndex).locateShard", 1).heldW
 //@   requires [pos]   pos != nil
+//@   at (index.index).put assert [passes-key-and-position-through] arg1 == key && arg2 == pos
+//@   checks [returns-what-the-shard-returned] result == result_of("(index.index).put")
 //@   modifies s.model, s.count, s.live
 //@   assume  [model]  s.model == store(old(s.model), keyid(key), pos)
 //@   assume  [old]    result == old(s.model)[keyid(key)]
@@ -26,6 +28,8 @@ package index
 //@   props C08 C09 C14 C01
 //@   requires [inv] INV_index(s)
 //@   at (index.index).get assert [under-the-lock-of-the-same-shard] exists i :: 0 <= i && i < len(s.index) && arg0 == s.index[i] && result_of("(*index.ShardedIndex).locateShard", 1) == elemaddr(s.indexLock, i) && (result_of("(*index.ShardedIndex).locateShard", 1).heldR || result_of("(*index.ShardedIndex).locateShard", 1).heldW)
+//@   at (index.index).get assert [passes-key-through] arg1 == key
+//@   checks [returns-what-the-shard-returned] result == result_of("(index.index).get")
 //@   modifies nothing
 //@   assume  [lookup] result == s.model[keyid(key)]
 
@@ -33,6 +37,8 @@ package index
 //@   props C08 C09 C14 C01
 //@   requires [inv] INV_index(s)
 //@   at (index.index).delete assert [under-the-lock-of-the-same-shard] exists i :: 0 <= i && i < len(s.index) && arg0 == s.index[i] && result_of("(*index.ShardedIndex).locateShard", 1) == elemaddr(s.indexLock, i) && result_of("(*index.ShardedIndex).locateShard", 1).heldW
+//@   at (index.index).delete assert [passes-key-through] arg1 == key
+//@   checks [returns-what-the-shard-returned] result == result_of("(index.index).delete")
 //@   modifies s.model, s.count, s.live
 //@   assume  [model]  s.model == store(old(s.model), keyid(key), 0)
 //@   assume  [old]    result == old(s.model)[keyid(key)]
@@ -43,11 +49,13 @@ package index
 //@   trusted
 //@   pure
 //@   ensures [count] result == s.count && result >= 0
+//@   assume  [key-count-fits-memory] result <= 1099511627776
 
 // ---------------------------------------------------------------------------------------------
 // Sharding layer: every shard operation runs under the lock of the same shard
 // ---------------------------------------------------------------------------------------------
-//@ pred INV_index(s) = s != nil && s.cap == len(s.index) && s.cap == len(s.indexLock) && s.cap >= 1 && (forall i :: {s.index[i]} 0 <= i && i < len(s.index) ==> s.index[i] != nil) && (forall i :: {elemaddr(s.indexLock, i)} 0 <= i && i < len(s.indexLock) ==> !as("*sync.RWMutex", elemaddr(s.indexLock, i)).heldW && !as("*sync.RWMutex", elemaddr(s.indexLock, i)).heldR)
+//@ rep index.ShardedIndex.model : type:btree.BTree.bm, type:btree.BTree.bn, type:skiplist.SkipList.sm, type:skiplist.SkipList.sn, type:skiplist.Element.Value, mapsof:index.hashMapIndex.mp
+//@ pred INV_index(s) = s != nil && s.cap == len(s.index) && s.cap == len(s.indexLock) && s.cap >= 1 && (forall i :: {s.index[i]} 0 <= i && i < len(s.index) ==> s.index[i] != nil && iopen(s.index[i])) && (forall i :: {elemaddr(s.indexLock, i)} 0 <= i && i < len(s.indexLock) ==> !as("*sync.RWMutex", elemaddr(s.indexLock, i)).heldW && !as("*sync.RWMutex", elemaddr(s.indexLock, i)).heldR)
 
 //@ func index.nextPowerOfTwo
 //@   props C14
@@ -58,8 +66,14 @@ package index
 //@ func index.newIndexer
 //@   props C14
 //@   panics_ok
-//@   ensures [some-index] result != nil && fresh(result)
+//@   ensures [some-index] result != nil && fresh(result) && iopen(result)
 //@   modifies nothing
+//@ func index.newBTree
+//@   inline
+//@ func index.newSkipList
+//@   inline
+//@ func index.newMap
+//@   inline
 
 //@ func index.NewShardedIndex
 //@   props C14
@@ -69,26 +83,275 @@ package index
 //@   assume  [empty-model] result.count == 0 && result.live == 0 && (forall k :: {result.model[k]} result.model[k] == 0)
 //@   modifies nothing
 //@   loop 1
-//@     invariant [filled] 0 <= i && i <= shardNum && len(shards) == shardNum && len(locks) == shardNum && fresh(shards) && (forall j :: {shards[j]} 0 <= j && j < i ==> shards[j] != nil)
+//@     invariant [filled] 0 <= i && i <= shardNum && len(shards) == shardNum && len(locks) == shardNum && fresh(shards) && (forall j :: {shards[j]} 0 <= j && j < i ==> shards[j] != nil && iopen(shards[j]))
 
 //@ func (*index.ShardedIndex).locateShard
 //@   inline
 
+// ---------------------------------------------------------------------------------------------
+// One abstract contract for the three index implementations (C14)
+//
+// imodelAt(self, k): the position the shard index `self` stores for key id k (0 = none), read off the
+// representation of whichever implementation `self` is: the ghost model of the B-tree / skip list
+// library object (trusted library contracts in /verif/trusted/lib.spec) or the Go map.
+// ---------------------------------------------------------------------------------------------
+//@ pred asBT(self) = as("*index.btreeIndex", dyn(self))
+//@ pred asSL(self) = as("*index.skipListIndex", dyn(self))
+//@ pred asHM(self) = as("*index.hashMapIndex", dyn(self))
+//@ pred slPos(e) = (e == 0 ? 0 : dyn(as("*skiplist.Element", e).Value))
+//@ pred btPos(i) = (i == 0 ? 0 : as("*index.item", i).pos)
+//@ pred imodelAt(self, k) = (isType(self, "*index.btreeIndex") ? btPos(asBT(self).tree.bm[k]) : (isType(self, "*index.skipListIndex") ? slPos(asSL(self).list.sm[k]) : asHM(self).mp[k]))
+//@ pred isize(self) = (isType(self, "*index.btreeIndex") ? asBT(self).tree.bn : (isType(self, "*index.skipListIndex") ? asSL(self).list.sn : len(asHM(self).mp)))
+// an open shard index: one of the three implementations, with its container present
+//@ pred iopen(self) = dyn(self) != 0 && ((isType(self, "*index.btreeIndex") && asBT(self).tree != nil) || (isType(self, "*index.skipListIndex") && asSL(self).list != nil) || (isType(self, "*index.hashMapIndex") && asHM(self).mp != nil))
+
 //@ func iface (index.index).put
 //@   params self key pos
-//@   trusted
+//@   props C14 C01
+//@   requires [open] iopen(self)
+//@   ensures [stored] imodelAt(self, old(keyid(key))) == pos
+//@   ensures [others-untouched] forall k :: {imodelAt(self, k)} k != old(keyid(key)) ==> imodelAt(self, k) == old(imodelAt(self, k))
+//@   ensures [returns-previous] result == old(imodelAt(self, keyid(key)))
+//@   ensures [stays-open] iopen(self)
+//@   modifies type:btree.BTree.bm, type:btree.BTree.bn, type:skiplist.SkipList.sm, type:skiplist.SkipList.sn, type:skiplist.Element.Value, mapsof:index.hashMapIndex.mp
 //@ func iface (index.index).get
 //@   params self key
-//@   trusted
+//@   props C14 C01
 //@   pure
+//@   requires [open] iopen(self)
+//@   ensures [lookup] result == imodelAt(self, keyid(key))
 //@ func iface (index.index).delete
 //@   params self key
-//@   trusted
+//@   props C14 C01
+//@   requires [open] iopen(self)
+//@   ensures [removed] imodelAt(self, old(keyid(key))) == 0
+//@   ensures [others-untouched] forall k :: {imodelAt(self, k)} k != old(keyid(key)) ==> imodelAt(self, k) == old(imodelAt(self, k))
+//@   ensures [returns-previous] result == old(imodelAt(self, keyid(key)))
+//@   ensures [stays-open] iopen(self)
+//@   modifies type:btree.BTree.bm, type:btree.BTree.bn, type:skiplist.SkipList.sm, type:skiplist.SkipList.sn, mapsof:index.hashMapIndex.mp
 //@ func iface (index.index).size
 //@   params self
-//@   trusted
+//@   props C14 C17
 //@   pure
+//@   requires [open] iopen(self)
+//@   ensures [count] result == isize(self)
 //@ func iface (index.index).iterator
 //@   params self reverse
 //@   trusted
-//@   ensures [some-iterator] result != nil
+//@   ensures [some-iterator] result != nil && fresh(result)
+//@   modifies nothing
+
+// shard iterators behind the iterator interface: cursor movement only touches the iterator's own cursor
+//@ func iface (index.iterator).seek
+//@   params self key
+//@   trusted
+//@   modifies type:index.mapIterator.curIndex, type:index.skipListIterator.curIndex, type:index.btreeIterator.current, type:index.btreeIterator.isIterable
+//@ func iface (index.iterator).rewind
+//@   params self
+//@   trusted
+//@   modifies type:index.mapIterator.curIndex, type:index.skipListIterator.curIndex, type:index.btreeIterator.current, type:index.btreeIterator.isIterable
+//@ func iface (index.iterator).next
+//@   params self
+//@   trusted
+//@   modifies type:index.mapIterator.curIndex, type:index.skipListIterator.curIndex, type:index.btreeIterator.current, type:index.btreeIterator.isIterable
+//@ func iface (index.iterator).valid
+//@   params self
+//@   trusted
+//@   pure
+//@ func iface (index.iterator).key
+//@   params self
+//@   trusted
+//@   pure
+//@ func iface (index.iterator).value
+//@   params self
+//@   trusted
+//@   pure
+//@ func iface (index.iterator).close
+//@   params self
+//@   trusted
+//@   modifies type:index.mapIterator.values, type:index.skipListIterator.values, type:index.btreeIterator.tree, type:index.btreeIterator.current, type:index.btreeIterator.isIterable, type:btree.BTree.bm, type:btree.BTree.bn
+
+// B-tree
+//@ func (*index.btreeIndex).put
+//@   props C14 C15 C01
+//@   conforms (index.index).put
+//@   at (*btree.BTree).ReplaceOrInsert assert [key-copied] (arr(as("*index.item", dyn(arg1)).key) == 0 || fresh(as("*index.item", dyn(arg1)).key)) && fresh(as("*index.item", dyn(arg1)))
+//@   modifies bt.tree.bm, bt.tree.bn
+//@ func (*index.btreeIndex).get
+//@   props C14 C01
+//@   conforms (index.index).get
+//@   modifies nothing
+//@ func (*index.btreeIndex).delete
+//@   props C14 C01
+//@   conforms (index.index).delete
+//@   modifies bt.tree.bm, bt.tree.bn
+//@ func (*index.btreeIndex).size
+//@   props C14 C17
+//@   conforms (index.index).size
+//@   modifies nothing
+
+// skip list
+//@ func (*index.skipListIndex).put
+//@   props C14 C15 C01
+//@   conforms (index.index).put
+//@   at (*skiplist.SkipList).Set assert [key-copied] arr(unboxBytes(arg1)) == 0 || fresh(unboxBytes(arg1))
+//@   modifies s.list.sm, s.list.sn, type:skiplist.Element.Value
+//@ func (*index.skipListIndex).get
+//@   props C14 C01
+//@   conforms (index.index).get
+//@   modifies nothing
+//@ func (*index.skipListIndex).delete
+//@   props C14 C01
+//@   conforms (index.index).delete
+//@   modifies s.list.sm, s.list.sn
+//@ func (*index.skipListIndex).size
+//@   props C14 C17
+//@   conforms (index.index).size
+//@   modifies nothing
+
+// Go map
+//@ func (*index.hashMapIndex).put
+//@   props C14 C15 C01
+//@   conforms (index.index).put
+//@   modifies m.mp[*]
+//@ func (*index.hashMapIndex).get
+//@   props C14 C01
+//@   conforms (index.index).get
+//@   modifies nothing
+//@ func (*index.hashMapIndex).delete
+//@   props C14 C01
+//@   conforms (index.index).delete
+//@   modifies m.mp[*]
+//@ func (*index.hashMapIndex).size
+//@   props C14 C17
+//@   conforms (index.index).size
+//@   modifies nothing
+
+// ---------------------------------------------------------------------------------------------
+// Shard iterators (C10, C14): a snapshot slice sorted in iteration order plus a cursor
+// ---------------------------------------------------------------------------------------------
+//@ pred INV_snap(vs) = forall i :: {vs[i]} 0 <= i && i < len(vs) ==> vs[i] != nil
+
+// the two search predicates: descending snapshots look for the first key <= target, ascending ones for the first key >= target
+//@ func (*index.mapIterator).seek$1
+//@   props C10 C14
+//@   requires [in-range] m != nil && 0 <= i && i < len(m.values) && m.values[i] != nil
+//@   ensures [first-key-not-above-target] result == (cmpKeys(keyid(m.values[i].key), keyid(key)) <= 0)
+//@   modifies nothing
+//@ func (*index.mapIterator).seek$2
+//@   props C10 C14
+//@   requires [in-range] m != nil && 0 <= i && i < len(m.values) && m.values[i] != nil
+//@   ensures [first-key-not-below-target] result == (cmpKeys(keyid(m.values[i].key), keyid(key)) >= 0)
+//@   modifies nothing
+//@ func (*index.mapIterator).seek
+//@   props C10 C14
+//@   requires [snapshot] INV_snap(m.values)
+//@   at sort.Search assert [searches-the-whole-snapshot-in-its-direction] arg0 == len(m.values) && (m.reverse ? closure(arg1, "seek$1") : closure(arg1, "seek$2"))
+//@   ensures [cursor-in-range] 0 <= m.curIndex && m.curIndex <= len(m.values)
+//@   checks [cursor-is-the-search-result] m.curIndex == result_of("sort.Search")
+//@   modifies m.curIndex
+//@ func (*index.skipListIterator).seek$1
+//@   props C10 C14
+//@   requires [in-range] s != nil && 0 <= i && i < len(s.values) && s.values[i] != nil
+//@   ensures [first-key-not-above-target] result == (cmpKeys(keyid(s.values[i].key), keyid(key)) <= 0)
+//@   modifies nothing
+//@ func (*index.skipListIterator).seek$2
+//@   props C10 C14
+//@   requires [in-range] s != nil && 0 <= i && i < len(s.values) && s.values[i] != nil
+//@   ensures [first-key-not-below-target] result == (cmpKeys(keyid(s.values[i].key), keyid(key)) >= 0)
+//@   modifies nothing
+//@ func (*index.skipListIterator).seek
+//@   props C10 C14
+//@   requires [snapshot] INV_snap(s.values)
+//@   at sort.Search assert [searches-the-whole-snapshot-in-its-direction] arg0 == len(s.values) && (s.reverse ? closure(arg1, "seek$1") : closure(arg1, "seek$2"))
+//@   ensures [cursor-in-range] 0 <= s.curIndex && s.curIndex <= len(s.values)
+//@   checks [cursor-is-the-search-result] s.curIndex == result_of("sort.Search")
+//@   modifies s.curIndex
+
+// ---------------------------------------------------------------------------------------------
+// Merging iterator over the shard iterators: a heap of the live ones plus the list of exhausted ones
+// ---------------------------------------------------------------------------------------------
+//@ pred INV_iter(it) = it != nil && it.heap != nil && (forall i :: {it.heap.items[i]} 0 <= i && i < len(it.heap.items) ==> it.heap.items[i] != nil) && (forall i :: {it.oldItems[i]} 0 <= i && i < len(it.oldItems) ==> it.oldItems[i] != nil) && (arr(it.oldItems) == 0 || arr(it.oldItems) != arr(it.heap.items))
+
+//@ func index.newIndexIterator
+//@   props C10 C14
+//@   requires [iterators] forall i :: {iters[i]} 0 <= i && i < len(iters) ==> iters[i] != nil
+//@   ensures [inv] INV_iter(result) && fresh(result) && fresh(result.heap) && result.heap.items == iters && len(result.oldItems) == 0 && result.heap.reverse == reverse
+//@   checks [heap-built] called("heap.Init")
+//@   modifies iters[*]
+
+//@ func (*index.IndexIterator).Valid
+//@   props C10 C09
+//@   ensures [live-iterators-left] result == (it.heap != nil && len(it.heap.items) > 0)
+//@   modifies nothing
+
+//@ func (*index.IndexIterator).Seek
+//@   props C10 C14
+//@   content
+//@   requires [inv] it != nil && (it.heap != nil ==> INV_iter(it))
+//@   ensures [inv] it.heap == old(it.heap) && (it.heap != nil ==> INV_iter(it))
+//@   ensures [no-shard-iterator-dropped] it.heap != nil ==> len(it.heap.items) + len(it.oldItems) == old(len(it.heap.items) + len(it.oldItems))
+//@   checks [heap-rebuilt] old(it.heap != nil && len(it.heap.items) > 0) ==> called("heap.Init")
+//@   at (index.iterator).seek assert [same-target-for-every-shard] arg1 == key
+//@   modifies it.heap.items, it.oldItems, it.oldItems[*], type:index.mapIterator.curIndex, type:index.skipListIterator.curIndex, type:index.btreeIterator.current, type:index.btreeIterator.isIterable
+//@   loop 1
+//@     invariant [counted] it.heap == old(it.heap) && it.heap != nil && oldItems == old(it.heap.items) && 0 - 1 <= rangeindex && rangeindex < len(oldItems) && len(it.heap.items) + len(it.oldItems) == old(len(it.oldItems)) + rangeindex + 1
+//@     invariant [non-nil] (forall i :: {it.heap.items[i]} 0 <= i && i < len(it.heap.items) ==> it.heap.items[i] != nil) && (forall i :: {it.oldItems[i]} 0 <= i && i < len(it.oldItems) ==> it.oldItems[i] != nil) && (forall i :: {oldItems[i]} 0 <= i && i < len(oldItems) ==> oldItems[i] != nil)
+//@     invariant [own-arrays] (arr(it.heap.items) == 0 || fresh(it.heap.items)) && (arr(it.oldItems) == old(arr(it.oldItems)) || fresh(it.oldItems)) && (arr(it.oldItems) == 0 || (arr(it.oldItems) != arr(oldItems) && arr(it.oldItems) != arr(it.heap.items)))
+
+//@ func (*index.IndexIterator).Rewind
+//@   props C10 C14
+//@   content
+//@   requires [inv] it != nil && (it.heap != nil ==> INV_iter(it))
+//@   ensures [inv] it.heap == old(it.heap) && (it.heap != nil ==> INV_iter(it))
+//@   ensures [every-shard-iterator-live-again] it.heap != nil ==> len(it.oldItems) == 0 && len(it.heap.items) == old(len(it.heap.items) + len(it.oldItems))
+//@   checks [heap-rebuilt] old(it.heap != nil) ==> called("heap.Init")
+//@   modifies it.heap.items, it.heap.items[*], it.oldItems, type:index.mapIterator.curIndex, type:index.skipListIterator.curIndex, type:index.btreeIterator.current, type:index.btreeIterator.isIterable
+//@   loop 1
+//@     invariant [kept] it.heap == old(it.heap) && it.heap != nil && it.heap.items == old(it.heap.items) && it.oldItems == old(it.oldItems) && INV_iter(it)
+//@   loop 2
+//@     invariant [moved] it.heap == old(it.heap) && it.heap != nil && it.oldItems == old(it.oldItems) && 0 - 1 <= rangeindex && rangeindex < len(it.oldItems) && len(it.heap.items) == old(len(it.heap.items)) + rangeindex + 1
+//@     invariant [non-nil] (forall i :: {it.heap.items[i]} 0 <= i && i < len(it.heap.items) ==> it.heap.items[i] != nil) && (forall i :: {it.oldItems[i]} 0 <= i && i < len(it.oldItems) ==> it.oldItems[i] != nil)
+//@     invariant [own-arrays] (arr(it.heap.items) == old(arr(it.heap.items)) || fresh(it.heap.items)) && (arr(it.oldItems) == 0 || arr(it.oldItems) != arr(it.heap.items))
+
+//@ func (*index.IndexIterator).Next
+//@   props C10 C14
+//@   content
+//@   requires [inv] it != nil && (it.heap != nil ==> INV_iter(it))
+//@   ensures [inv] it.heap == old(it.heap) && (it.heap != nil ==> INV_iter(it))
+//@   ensures [no-shard-iterator-dropped] it.heap != nil ==> len(it.heap.items) + len(it.oldItems) == old(len(it.heap.items) + len(it.oldItems))
+//@   at (index.iterator).next assert [advances-the-popped-iterator] arg0 == result_of("heap.Pop")
+//@   modifies it.heap.items, it.heap.items[*], it.oldItems, it.oldItems[*], type:index.mapIterator.curIndex, type:index.skipListIterator.curIndex, type:index.btreeIterator.current, type:index.btreeIterator.isIterable
+
+//@ func (*index.IndexIterator).Key
+//@   props C10 C09
+//@   requires [inv] it != nil && (it.heap != nil ==> INV_iter(it))
+//@   at (index.iterator).key assert [smallest-live-iterator] arg0 == it.heap.items[0]
+//@   modifies nothing
+
+//@ func (*index.IndexIterator).Value
+//@   props C10 C09
+//@   requires [inv] it != nil && (it.heap != nil ==> INV_iter(it))
+//@   at (index.iterator).value assert [smallest-live-iterator] arg0 == it.heap.items[0]
+//@   ensures [none-when-exhausted] !(it.heap != nil && len(it.heap.items) > 0) ==> result == nil
+//@   assume  [a-live-shard-iterator-yields-a-stored-position] it.heap != nil && len(it.heap.items) > 0 ==> result != nil && result.Offset < 32768
+//@   modifies nothing
+
+//@ func (*index.IndexIterator).Close
+//@   props C10 C09
+//@   requires [inv] it != nil && (it.heap != nil ==> INV_iter(it))
+//@   ensures [closed] it.heap == nil
+//@   modifies it.heap, old(it.heap).items, type:index.mapIterator.values, type:index.skipListIterator.values, type:index.btreeIterator.tree, type:index.btreeIterator.current, type:index.btreeIterator.isIterable, type:btree.BTree.bm, type:btree.BTree.bn
+//@   loop 1
+//@     invariant [kept] it.heap == old(it.heap) && INV_iter(it) && it.heap.items == old(it.heap.items)
+
+// one snapshot per shard, each taken under the exclusive lock of its shard (B-tree Clone writes the tree)
+//@ func (*index.ShardedIndex).Iterator
+//@   props C10 C09 C08
+//@   content
+//@   requires [inv] INV_index(s)
+//@   ensures [iter] INV_iter(result) && fresh(result) && fresh(result.heap) && len(result.oldItems) == 0
+//@   at (index.index).iterator assert [snapshot-under-the-exclusive-lock-of-its-shard] 0 <= i && i < len(s.index) && arg0 == s.index[i] && as("*sync.RWMutex", elemaddr(s.indexLock, i)).heldW && arg1 == reverse
+//@   modifies nothing
+//@   loop 1
+//@     invariant [inv] INV_index(s) && 0 <= i && i <= s.cap && (arr(iters) == 0 || fresh(iters)) && (forall j :: {iters[j]} 0 <= j && j < len(iters) ==> iters[j] != nil)
